@@ -106,6 +106,7 @@ var Catalogue = []catEntry{
 	{"A-TARGET-NOT-ANCESTOR", "attestation", "attestation/target-ancestor", "", false},
 	{"A-TARGET-UNKNOWN", "attestation", "attestation/target-ancestor", "", false},
 	{"A-STALE-BRANCH", "attestation", "attestation/finalized-ancestor", "", false},
+	{"A-PRE-FINALIZED", "attestation", "attestation/finalized-ancestor", "", false},
 
 	{"G-INDEX-OOR", "aggregate", "aggregate/committee-index", "", false},
 	{"G-EARLY", "aggregate", "aggregate/slot-window", "lo-out", false},
@@ -128,6 +129,7 @@ var Catalogue = []catEntry{
 	{"G-BAD-BLOCK", "aggregate", "aggregate/block-valid", "", false},
 	{"G-TARGET-NOT-ANCESTOR", "aggregate", "aggregate/target-ancestor", "", false},
 	{"G-STALE-BRANCH", "aggregate", "aggregate/finalized-ancestor", "", false},
+	{"G-PRE-FINALIZED", "aggregate", "aggregate/finalized-ancestor", "", false},
 
 	{"X-DUP", "exit", "exit/first-for-validator", "", true},
 	{"X-SIG", "exit", "exit/process-voluntary-exit", "", false},
@@ -151,7 +153,7 @@ var Catalogue = []catEntry{
 	{"S-NOT-SLASHABLE-DATA", "attester_slashing", "attester_slashing/process-attester-slashing", "", false},
 	{"S-UNSORTED", "attester_slashing", "attester_slashing/process-attester-slashing", "", false},
 	{"S-DUP-INDEX", "attester_slashing", "attester_slashing/process-attester-slashing", "", false},
-	{"S-EMPTY", "attester_slashing", "attester_slashing/process-attester-slashing", "", false},
+	{"S-EMPTY", "attester_slashing", "attester_slashing/some-index-unseen", "", false},
 	{"S-SIG-1", "attester_slashing", "attester_slashing/process-attester-slashing", "", false},
 	{"S-SIG-2", "attester_slashing", "attester_slashing/process-attester-slashing", "", false},
 	{"S-NOBODY-SLASHABLE", "attester_slashing", "attester_slashing/process-attester-slashing", "", false},
@@ -546,7 +548,7 @@ func (bv *bview) produceAttestation(mc *MsgCase, clockMs int64) (*plan, string) 
 	cp := func() *refspec.Attestation { c := *h; c.Bits = append([]bool{}, h.Bits...); return &c }
 	switch mc.Corrupt {
 	case "", "A-EARLY", "A-LATE", "A-DUP":
-	case "A-STALE-BRANCH":
+	case "A-STALE-BRANCH", "A-PRE-FINALIZED":
 		if a, ok := bv.ref.GetAncestor(p.head, finSlot); !ok || a == bv.ref.Fin.Root {
 			return nil, "vote descends from the finalized block"
 		}
@@ -778,7 +780,7 @@ func (bv *bview) produceAggregate(mc *MsgCase, clockMs int64) (*plan, string) {
 	}
 	switch mc.Corrupt {
 	case "", "G-EARLY", "G-LATE":
-	case "G-STALE-BRANCH":
+	case "G-STALE-BRANCH", "G-PRE-FINALIZED":
 		if a, ok := bv.ref.GetAncestor(p.head, finSlot); !ok || a == bv.ref.Fin.Root {
 			return nil, "vote descends from the finalized block"
 		}
